@@ -139,6 +139,19 @@ func (c *Ctx) drawIntn(info *types.Info, rel string, call *ast.CallExpr, stack [
 		if is, ok := stack[i-1].(*ast.IfStmt); ok && is.Else != nil && stack[i] == ast.Node(is.Else) {
 			cands = append(cands, resCtx{is, is.Else})
 		}
+		// inverted: `if C >= N { draw ... } else { out[C] = x }` - same statement with the branches swapped
+		if is, ok := stack[i-1].(*ast.IfStmt); ok && is.Else != nil && stack[i] == ast.Node(is.Body) {
+			if be, ok := unparen(is.Cond).(*ast.BinaryExpr); ok && (be.Op == token.GEQ || be.Op == token.LEQ) {
+				if eb, ok := is.Else.(*ast.BlockStmt); ok {
+					nop := token.LSS
+					if be.Op == token.LEQ {
+						nop = token.GTR
+					}
+					synth := &ast.IfStmt{If: is.If, Cond: &ast.BinaryExpr{X: be.X, OpPos: be.OpPos, Op: nop, Y: be.Y}, Body: eb, Else: is.Body}
+					cands = append(cands, resCtx{synth, is.Body})
+				}
+			}
+		}
 		var list []ast.Stmt
 		switch b := stack[i-1].(type) {
 		case *ast.BlockStmt:
@@ -250,6 +263,32 @@ func (c *Ctx) drawIntn(info *types.Info, rel string, call *ast.CallExpr, stack [
 			c.OK("DRAW", key, call.Pos(), "reservoir: position "+cKey+", draw Intn("+arg+"), replacement iff draw < "+nKey+", count incremented once per item")
 		}
 		return
+	}
+	// the drawn value is stored and only handed to a helper that swaps two positions of parallel slices
+	{
+		var helperCalls []*ast.CallExpr
+		otherUse := false
+		walkStack(body, func(m ast.Node, st []ast.Node) bool {
+			id, ok := m.(*ast.Ident)
+			if !ok || info.Uses[id] != v || len(st) == 0 {
+				return true
+			}
+			if oc, ok := st[len(st)-1].(*ast.CallExpr); ok && inRepo(calleeOf(info, oc)) {
+				for _, a := range oc.Args {
+					if unparen(a) == ast.Expr(id) {
+						helperCalls = append(helperCalls, oc)
+						return true
+					}
+				}
+			}
+			otherUse = true
+			return true
+		})
+		if len(helperCalls) == 1 && !otherUse {
+			if c.drawSwapHelperVia(info, key, arg, call, helperCalls[0], stack, func(e ast.Expr) bool { return identObj(info, e) == v }) {
+				return
+			}
+		}
 	}
 	// uses of v
 	type use struct {
@@ -632,6 +671,12 @@ func (c *Ctx) drawWithReplacement(info *types.Info, key, arg string, call *ast.C
 // drawSwapHelper: `h(i, rand.Intn(E))` where h swaps positions (p0, p1) of its receiver's slices:
 // inside-out Fisher–Yates through a helper.
 func (c *Ctx) drawSwapHelper(info *types.Info, key, arg string, call, outer *ast.CallExpr, stack []ast.Node) bool {
+	return c.drawSwapHelperVia(info, key, arg, call, outer, stack, func(e ast.Expr) bool { return unparen(e) == ast.Expr(call) })
+}
+
+// drawSwapHelperVia: isDraw tells which argument of the helper call carries the drawn value (the
+// draw itself, or the local it was stored in).
+func (c *Ctx) drawSwapHelperVia(info *types.Info, key, arg string, call, outer *ast.CallExpr, stack []ast.Node, isDraw func(ast.Expr) bool) bool {
 	fn := calleeOf(info, outer)
 	g := c.FuncOfObj(fn)
 	if g == nil || len(outer.Args) != 2 {
@@ -660,8 +705,10 @@ func (c *Ctx) drawSwapHelper(info *types.Info, key, arg string, call, outer *ast
 	}
 	// the other argument is the ascending loop index
 	otherArg := outer.Args[0]
-	if unparen(outer.Args[0]) == ast.Expr(call) {
+	if isDraw(outer.Args[0]) {
 		otherArg = outer.Args[1]
+	} else if !isDraw(outer.Args[1]) {
+		return false
 	}
 	idx := identObj(info, otherArg)
 	var loopIdx types.Object
